@@ -16,5 +16,6 @@ for d in */; do
   grep -q "+++ b/pkg/k8s/taint.go" $n/patch.diff && cs="$cs C15 C01"
   grep -q "+++ b/pkg/controller/scale_lock.go" $n/patch.diff && cs="$cs C02"
   grep -q "+++ b/pkg/cloudprovider/aws/aws.go" $n/patch.diff && cs="$cs C17 C19"
+  grep -q "+++ b/pkg/controller/node_group.go" $n/patch.diff && cs="$cs C14"
   [ -n "$cs" ] && echo "$n $cs"
 done | xargs -P ${1:-3} -L 1 $V/tools/tryharmless.sh
